@@ -38,6 +38,10 @@ class Exec:
         self.gen_state = {}
         self.full_digests = False
         self.init_done = False
+        from .hist import SEQED
+        with open(os.path.join(root, "seqed.py"), "w") as f:
+            f.write(SEQED)
+        os.chmod(os.path.join(root, "seqed.py"), 0o755)
 
     # ------------------------------------------------------------------ setup
     def init(self):
@@ -80,6 +84,8 @@ class Exec:
         w.tick(op.get("dt", 1000))
         repo = self.repo(op)
         env = op.get("env")
+        if env:
+            env = {k: v.replace("{ROOT}", w.root) for k, v in env.items()}
         res = {"kind": kind}
         if kind == "edit":
             who = op["who"]
@@ -115,7 +121,7 @@ class Exec:
             res["codes"] = codes
             res["code"] = max([abs(c) for c in codes] or [0])
         elif kind == "git":
-            r = w.git(repo, *op["argv"], env=env, stdin=(op.get("stdin") or "").encode() or None,
+            r = w.git(repo, *[a.replace("{ROOT}", w.root) for a in op["argv"]], env=env, stdin=(op.get("stdin") or "").encode() or None,
                       mode=op.get("mode"))
             if op.get("cwd"):
                 pass
@@ -142,6 +148,9 @@ class Exec:
                 new = resolve_conflict(old, op.get("strategy", "union"))
                 w.write(repo, p, new)
                 self.ledger.edit(old, new, HUMAN)
+                # lines inside a conflict region are (re)written by the resolver: crediting the
+                # human for them is acceptable, crediting an AI session that did not write them is not
+                self.ledger.resolver_touched(conflict_region_lines(old))
                 w.raw_git(repo, "add", "--", p)
             res["code"] = 0
         elif kind == "write_raw":
@@ -159,6 +168,19 @@ class Exec:
             ev.append(state_digest(self.w, repo))
         self.events.append(ev)
         return res
+
+
+def conflict_region_lines(text):
+    out = []
+    inside = False
+    for ln in text.split("\n"):
+        if ln.startswith("<<<<<<< "):
+            inside = True
+        elif ln.startswith(">>>>>>> ") and inside:
+            inside = False
+        elif inside and not (ln == "=======" or ln.startswith("||||||| ")):
+            out.append(ln)
+    return out
 
 
 def resolve_conflict(text, strategy):
